@@ -84,50 +84,45 @@ fn err_coq(code: u32) -> &'static str {
     }
 }
 
-// ---------------------------------------------------------------- known defect classes
+// ---------------------------------------------------------------- the open finding F31
 
-/// Classes of inputs on which yash-rs is known (by this check) to deviate
-/// from the property; see props/C04.json "partial".
+/// F31 (open known finding): a non-complemented bracket expression with a
+/// collating symbol / equivalence class of two or more characters
+/// (`[[.ch.]c]h`) becomes a regex alternation that is tried in order, so the
+/// prefix forms `#` / `##` need not remove the shortest / longest prefix.
 ///
-/// * `F8`: a collating symbol / equivalence class of two or more characters
-///   (`[[.ch.]c]h`): the regex alternation is tried in order, so the prefix
-///   forms `#` / `##` need not remove the shortest / longest prefix.
-/// * `F9`: a collating symbol / equivalence class that is one non-ASCII
-///   character inside a complemented bracket (`[![.é.]a]`): it is counted as
-///   multi-character (`String::len() > 1`) and dropped from the set, or the
-///   emitted regex is broken (`[^]`).
+/// A case is tagged `F31` exactly when its pattern is in that class AND the
+/// prefix answer the implementation gave is not the extremal matching prefix,
+/// where "matching prefix" is decided with the implementation's own fully
+/// anchored `is_match` (which the order of the alternation cannot influence).
+/// Any other deviation on such a pattern stays untagged (a VIOLATION).
 #[derive(Clone, Copy, Debug, Default)]
 struct Known {
-    f8: bool,
-    f9: bool,
-    /// the broken `[^]` shape is followed by further atoms: the regex the
-    /// crate sees is outside the syntax the model covers
+    /// the pattern is in the F31 class
+    f31: bool,
+    /// a complemented bracket expression whose members are all multi-character:
+    /// the emitted class is the unclosed `[^]` (outside the model's domain; a
+    /// remaining deviation of the same family, reported, never generated)
     outside_model: bool,
 }
 
 fn classify(ast: &Ast) -> Known {
     let mut k = Known::default();
-    let n = ast.atoms.len();
-    for (idx, a) in ast.atoms.iter().enumerate() {
+    for a in ast.atoms.iter() {
         if let Atom::Bracket(b) = a {
             let mut all_multi = !b.items.is_empty();
             for it in &b.items {
                 let multi = match it {
                     BracketItem::Atom(BracketAtom::CollatingSymbol(v))
-                    | BracketItem::Atom(BracketAtom::EquivalenceClass(v)) => {
-                        if v.chars().count() > 1 {
-                            k.f8 = true;
-                        }
-                        if v.chars().count() == 1 && v.len() > 1 && b.complement {
-                            k.f9 = true;
-                        }
-                        v.len() > 1
-                    }
+                    | BracketItem::Atom(BracketAtom::EquivalenceClass(v)) => v.chars().count() > 1,
                     _ => false,
                 };
+                if multi && !b.complement {
+                    k.f31 = true;
+                }
                 all_multi &= multi;
             }
-            if b.complement && all_multi && idx + 1 < n {
+            if b.complement && all_multi {
                 k.outside_model = true;
             }
         }
@@ -135,83 +130,23 @@ fn classify(ast: &Ast) -> Known {
     k
 }
 
-/// A defect class is exercised only once it is registered as an open known
-/// finding (the driver then reports KNOWN-FINDING instead of VIOLATION), or
-/// with `--opt findings=all`.
-fn enabled(args: &Args, tag: &str) -> bool {
-    if args.opt("findings") == Some("all") {
-        return true;
-    }
-    let default_paths = [concat!(env!("CARGO_MANIFEST_DIR"), "/../known_findings.json"), "/verif/known_findings.json"];
-    let paths: Vec<&str> = match args.opt("known_findings") {
-        Some(p) => vec![p],
-        None => default_paths.to_vec(),
-    };
-    for path in paths {
-        if let Ok(text) = std::fs::read_to_string(path) {
-            return open_findings(&text).iter().any(|entry| {
-                let compact: String = entry.chars().filter(|c| !c.is_whitespace()).collect();
-                compact.contains(&format!("\"tag\":\"{tag}\"")) && compact.contains("\"property\":\"C04\"")
-            });
-        }
-    }
-    false
+/// Lengths (in characters) of the prefixes of `text` the pattern matches as a
+/// whole, by the fully anchored `is_match`.
+fn matching_prefixes(pcs: &[PatternChar], text: &str) -> Option<Vec<usize>> {
+    let mut c = Config::default();
+    c.anchor_begin = true;
+    c.anchor_end = true;
+    let p = Pattern::parse_with_config(pcs.to_vec(), c).ok()?;
+    let chars: Vec<char> = text.chars().collect();
+    Some((0..=chars.len()).filter(|n| p.is_match(&chars[..*n].iter().collect::<String>())).collect())
 }
 
-/// The objects of the "open" array of known_findings.json (as text), found by
-/// bracket matching outside string literals.
-fn open_findings(text: &str) -> Vec<String> {
-    let Some(start) = text.find("\"open\"") else { return vec![] };
-    let rest = &text[start..];
-    let Some(lb) = rest.find('[') else { return vec![] };
-    let mut depth = 0i32;
-    let mut in_str = false;
-    let mut esc = false;
-    let mut objs = vec![];
-    let mut cur = String::new();
-    for c in rest[lb..].chars() {
-        if in_str {
-            cur.push(c);
-            if esc {
-                esc = false;
-            } else if c == '\\' {
-                esc = true;
-            } else if c == '"' {
-                in_str = false;
-            }
-            continue;
-        }
-        match c {
-            '"' => {
-                in_str = true;
-                cur.push(c);
-            }
-            '[' | '{' => {
-                depth += 1;
-                if depth >= 2 {
-                    cur.push(c);
-                }
-            }
-            ']' | '}' => {
-                depth -= 1;
-                if depth >= 1 {
-                    cur.push(c);
-                }
-                if depth == 1 && c == '}' {
-                    objs.push(std::mem::take(&mut cur));
-                }
-                if depth == 0 {
-                    break;
-                }
-            }
-            _ => {
-                if depth >= 2 {
-                    cur.push(c);
-                }
-            }
-        }
+/// Is `end` (None = no match) the shortest / longest matching prefix?
+fn prefix_is_extremal(pcs: &[PatternChar], text: &str, shortest: bool, end: Option<usize>) -> bool {
+    match matching_prefixes(pcs, text) {
+        None => true,
+        Some(l) => end == if shortest { l.first().copied() } else { l.last().copied() },
     }
-    objs
 }
 
 // ---------------------------------------------------------------- stream 1
@@ -332,31 +267,32 @@ struct PatStats {
     oks: u32,
 }
 
-/// Runs one pattern through the real API and writes the case(s); inputs in
-/// a known defect class are split off, tagged and gated (see `Known`).
-fn emit_pat(w: &mut CasesWriter, args: &Args, src: &str, esc: bool, texts: &Texts, configs: &[Cfg], stream: &str) {
+/// Runs one pattern through the real API and writes the case(s).  For a
+/// pattern in the F31 class the configurations with only the start anchored
+/// go into a case of their own, tagged iff a prefix answer is not extremal.
+fn emit_pat(w: &mut CasesWriter, _args: &Args, src: &str, esc: bool, texts: &Texts, configs: &[Cfg], stream: &str) {
     let pcs: Vec<PatternChar> = if esc { with_escape(src).collect() } else { without_escape(src).collect() };
-    let k = classify(&Ast::new(pcs));
+    let k = classify(&Ast::new(pcs.clone()));
     if k.outside_model {
-        w.count("skipped:broken-regex-shape-outside-model");
+        w.count("skipped:complement-of-only-multichar-symbols");
         return;
     }
-    if k.f9 {
-        if enabled(args, "F9") {
-            emit_pat_tagged(w, src, esc, texts, configs, &["F9"], stream);
-        } else {
-            w.count("skipped:F9-not-registered");
-        }
-        return;
-    }
-    if k.f8 {
+    if k.f31 {
         let (prefix, rest): (Vec<Cfg>, Vec<Cfg>) = configs.iter().partition(|c| c.ab && !c.ae);
         emit_pat_tagged(w, src, esc, texts, &rest, &[], stream);
-        if enabled(args, "F8") {
-            emit_pat_tagged(w, src, esc, texts, &prefix, &["F8"], stream);
-        } else {
-            w.count("skipped:F8-prefix-configs-not-registered");
+        let mut deviates = false;
+        for c in &prefix {
+            if let Ok(p) = Pattern::parse_with_config(pcs.clone(), c.real()) {
+                for t in texts.all() {
+                    for r in [p.find(&t), p.rfind(&t)] {
+                        let end = r.map(|r| char_range(&t, r).1);
+                        deviates |= !prefix_is_extremal(&pcs, &t, c.sm, end);
+                    }
+                }
+            }
         }
+        w.count(if deviates { "F31:prefix-answer-not-extremal" } else { "F31:class-but-extremal" });
+        emit_pat_tagged(w, src, esc, texts, &prefix, if deviates { &["F31"] } else { &[] }, stream);
         return;
     }
     emit_pat_tagged(w, src, esc, texts, configs, &[], stream);
@@ -543,6 +479,10 @@ fn random_bracket(r: &mut Rng) -> String {
             9 => {
                 s.push_str("[.");
                 s.push(*r.pick(&LITS));
+                if r.chance(1, 5) {
+                    // a multi-character collating symbol (F31 class unless complemented)
+                    s.push(*r.pick(&['a', 'b', 'h', '.', 'é']));
+                }
                 s.push_str(".]");
             }
             10 => {
@@ -731,7 +671,7 @@ fn random_parts(r: &mut Rng) -> Vec<Part> {
 }
 
 /// What the pattern word means to the matcher (for classification only).
-fn parts_known(parts: &[Part]) -> Known {
+fn parts_chars(parts: &[Part]) -> Vec<PatternChar> {
     let mut pcs = vec![];
     for p in parts {
         match p {
@@ -741,33 +681,18 @@ fn parts_known(parts: &[Part]) -> Known {
             Part::Var(raw, true) => pcs.extend(raw.chars().map(PatternChar::Literal)),
         }
     }
-    classify(&Ast::new(pcs))
+    pcs
 }
 
-/// Tags of a shell case; None = leave the case out (class not registered or
-/// outside the model).  `prefix_forms`: the case uses `#` / `##`.
-fn shell_tags(w: &mut CasesWriter, args: &Args, words: &[&[Part]], prefix_forms: bool) -> Option<Vec<&'static str>> {
-    let mut tags = vec![];
+/// false = leave the case out (a pattern outside the model's domain)
+fn shell_in_domain(w: &mut CasesWriter, words: &[&[Part]]) -> bool {
     for parts in words {
-        let k = parts_known(parts);
-        if k.outside_model {
-            w.count("skipped:broken-regex-shape-outside-model");
-            return None;
-        }
-        if k.f9 && !tags.contains(&"F9") {
-            tags.push("F9");
-        }
-        if k.f8 && prefix_forms && !tags.contains(&"F8") {
-            tags.push("F8");
+        if classify(&Ast::new(parts_chars(parts))).outside_model {
+            w.count("skipped:complement-of-only-multichar-symbols");
+            return false;
         }
     }
-    for t in &tags {
-        if !enabled(args, t) {
-            w.count(&format!("skipped:{t}-not-registered"));
-            return None;
-        }
-    }
-    Some(tags)
+    true
 }
 
 fn parts_show(parts: &[Part]) -> String {
@@ -862,8 +787,11 @@ fn subject_for(r: &mut Rng, parts: &[Part]) -> String {
 
 fn emit_case(w: &mut CasesWriter, args: &Args, subject: &str, items: &[(Vec<Vec<Part>>, u8)]) {
     let words: Vec<&[Part]> = items.iter().flat_map(|(pats, _)| pats.iter().map(|p| p.as_slice())).collect();
-    let Some(tags) = shell_tags(w, args, &words, false) else { return };
-    let tags = &tags[..];
+    let _ = args;
+    if !shell_in_domain(w, &words) {
+        return;
+    }
+    let tags: &[&str] = &[];
     let mut setup = String::new();
     let mut nvar = 0;
     let mut body = String::new();
@@ -908,8 +836,10 @@ fn emit_case(w: &mut CasesWriter, args: &Args, subject: &str, items: &[(Vec<Vec<
 }
 
 fn emit_trim(w: &mut CasesWriter, args: &Args, value: &str, parts: &[Part]) {
-    let Some(tags) = shell_tags(w, args, &[parts], true) else { return };
-    let tags = &tags[..];
+    let _ = args;
+    if !shell_in_domain(w, &[parts]) {
+        return;
+    }
     let mut setup = String::new();
     let mut nvar = 0;
     let (pt, ac) = render_word(parts, &mut setup, &mut nvar);
@@ -939,7 +869,29 @@ fn emit_trim(w: &mut CasesWriter, args: &Args, value: &str, parts: &[Part]) {
     let changed = got.iter().filter(|g| g.as_str() != value).count();
     w.count(&format!("trim:forms-that-removed-something:{changed}"));
     let key = if changed > 0 { Some(script.clone()) } else { None };
-    w.push(&term, &json, tags, key);
+    // F31: in the class, and # or ## did not remove the extremal matching prefix
+    let pcs = parts_chars(parts);
+    let mut tags: Vec<&str> = vec![];
+    if classify(&Ast::new(pcs.clone())).f31 && got.len() == 4 {
+        let total = value.chars().count();
+        let removed = |out: &str| -> Option<usize> {
+            // the prefix forms return a suffix of the value
+            let n = out.chars().count();
+            if n <= total && value.chars().skip(total - n).collect::<String>() == out { Some(total - n) } else { None }
+        };
+        let mut deviates = false;
+        for (k, shortest) in [(0usize, true), (1usize, false)] {
+            if let Some(l) = matching_prefixes(&pcs, value) {
+                let want = if shortest { l.first().copied() } else { l.last().copied() }.unwrap_or(0);
+                deviates |= removed(&got[k]) != Some(want);
+            }
+        }
+        w.count(if deviates { "F31:prefix-answer-not-extremal" } else { "F31:class-but-extremal" });
+        if deviates {
+            tags.push("F31");
+        }
+    }
+    w.push(&term, &json, &tags, key);
 }
 
 fn seg_str(s: &str) -> Vec<Part> {
@@ -955,7 +907,15 @@ fn main() {
     let std_fill = ['a', 'b', 'c', 'd', 'e', 'f'];
 
     // ---- corpus: patterns that mattered (F2, F3, quirks of the bracket grammar)
-    let corpus: [(&str, bool); 62] = [
+    let corpus: [(&str, bool); 70] = [
+        ("[![.é.]a]", false),
+        ("[![.é.]]", false),
+        ("[![=あ=]]x", false),
+        ("[^[.é.][=ß=]-]*", false),
+        ("[![.ch.]a]", false),
+        ("[[.a.][.ab.]]", false),
+        ("[[=ab=]a]b*", false),
+        ("*[[.é.]x]", false),
         ("[[.a\\.]b]", true),
         ("[[.a.\\]]", true),
         ("[[:alpha\\:]]x]", true),
@@ -1106,7 +1066,13 @@ fn main() {
     }
 
     // ---- the shell: case and the four trim forms
-    let shell_corpus: [(&str, &str); 10] = [
+    let shell_corpus: [(&str, &str); 16] = [
+        ("chh", "[[.ch.]c]h"),
+        ("ab", "[[.a.][.ab.]]"),
+        ("é", "[![.é.]a]"),
+        ("x", "[![.é.]]"),
+        ("xé", "*[![=é=]]"),
+        ("cha", "[![.ch.]a]*"),
         ("b", "[a\\-z]"),
         ("-", "[a\\-z]"),
         ("aaa", "[[.a*.]]"),
